@@ -13,12 +13,35 @@ open PolyVerif PolyVerif.Mesh PolyVerif.Gen
 
 def pow10 (p : Nat) : Float := (10 ^ p).toFloat
 
+/-- Go's `int(f)` for a float64 on amd64 (CVTTSD2SI): truncation when the value fits in int64, otherwise
+    — NaN, ±Inf, out of range — the "integer indefinite" value `math.MinInt64` (Lean's `Float.toInt64`
+    saturates and maps NaN to 0, so the out-of-range cases are spelled out). -/
+def goInt (y : Float) : Int :=
+  if y != y || y ≥ 9223372036854775808.0 || y < -9223372036854775808.0 then -9223372036854775808
+  else y.toInt64.toInt
+
 /-- `modeling.Vector3ToInt(v, power)`: `int(math.Round(x * math.Pow10(power)))` per component -/
-def weldKey (power : Nat) (v : P) : List Int := v.map fun x => (Float.round (x * pow10 power)).toInt64.toInt
+def weldKey (power : Nat) (v : P) : List Int := v.map fun x => goInt (Float.round (x * pow10 power))
 
 def firstLt (thr : Float) : P → Bool
   | a :: _ => a < thr
   | [] => false
+
+/-- Go's `math.Max` (math/dim.go): +Inf wins over everything (also NaN), then NaN, then signed zeros -/
+def goMax (x y : Float) : Float :=
+  let pinf : Float := 1.0 / 0.0
+  if x == pinf || y == pinf then pinf
+  else if x != x || y != y then 0.0 / 0.0
+  else if x == 0.0 && y == 0.0 then (if x.toBits == 0x8000000000000000 then y else x)
+  else if x > y then x else y
+
+/-- Go's `math.Min`: -Inf wins over everything (also NaN), then NaN, then signed zeros -/
+def goMin (x y : Float) : Float :=
+  let ninf : Float := -1.0 / 0.0
+  if x == ninf || y == ninf then ninf
+  else if x != x || y != y then 0.0 / 0.0
+  else if x == 0.0 && y == 0.0 then (if x.toBits == 0x8000000000000000 then x else y)
+  else if x < y then x else y
 
 /-- Go's `-math.MaxFloat64` -/
 def negMaxFloat : Float := Float.ofBits 0xffefffffffffffff
@@ -119,11 +142,11 @@ def applyOp (op : String) (ts : List String) : Option (Option (List MV)) :=
   | "center" => do
       let (name, ts) ← pTok ts
       let (m, _) ← pMesh ts
-      oneO (m.center name)
+      oneO (MeshVal.center goMin goMax m name)
   | "normalize" => do
       let (name, ts) ← pTok ts
       let (m, _) ← pMesh ts
-      oneO (MeshVal.normalize negMaxFloat m name)
+      oneO (MeshVal.normalize negMaxFloat goMax m name)
   | "smoothnormals" => do let (m, _) ← pMesh ts; oneO m.smoothNormals
   | "flatnormals" => do let (m, _) ← pMesh ts; oneO m.flatNormals
   | "laplacian" => do
